@@ -23,6 +23,8 @@ pub struct SimConfig {
     pub latency_us: u64,
     /// Give up (watchdog) after this many frames
     pub frame_budget: u64,
+    /// Continue with the virtual clock as it stands (a second MainDevice on the same network)
+    pub keep_clock: bool,
 }
 
 impl Default for SimConfig {
@@ -42,6 +44,7 @@ impl Default for SimConfig {
             dc_static_sync_iterations: 2,
             latency_us: 5,
             frame_budget: 2_000_000,
+            keep_clock: false,
         }
     }
 }
@@ -66,7 +69,9 @@ pub fn run<R>(net: &NetHandle, cfg: &SimConfig, f: impl for<'a> FnOnce(&'a MainD
     let storage = make_storage(cfg.slots, cfg.frame_size).ok_or(SimError::NoStorage)?;
     let (mut tx, mut rx, pdu_loop) = storage.split();
 
-    vclock::reset();
+    if !cfg.keep_clock {
+        vclock::reset();
+    }
 
     net.borrow_mut().max_frame = cfg.frame_size;
 
